@@ -108,6 +108,12 @@ class RtlReader(object):
                 # advance i with a jump
                 i = frame_start + j
 
+                # the format (first 5 bits) fixes the frame length; what the bit
+                # loop gathers beyond it is noise above the end-of-frame threshold
+                if len(msgbin) >= 5:
+                    nbits = 112 if msgbin[0] == 1 else 56  # DF >= 16 are long
+                    msgbin = msgbin[:nbits]
+
                 if len(msgbin) > 0:
                     msghex = pms.bin2hex("".join([str(i) for i in msgbin]))
                     if self._check_msg(msghex):
